@@ -54,7 +54,7 @@ def main():
                 rc1, out1 = run_demo(meta, code)
                 res["demo_with_patch"] = "pass" if rc1 == 0 else "FAIL"
                 res["demo_output"] = out1[-600:]
-            rc, out = sh(f"/verif/bin/govc check --property {P} --tier quick --no-evidence", cwd="/verif", env={"GOVC_NO_SELFTEST": "1"})
+            rc, out = sh(f"/verif/bin/govc check --property {P} --tier quick --no-evidence", cwd="/verif", env={"GOVC_NO_SELFTEST": "1", "GOVC_NO_RETRY": "1"})
             res["check_exit"] = rc
             res["check_lines"] = [l for l in out.split("\n") if l.startswith("VIOLATION") or l.startswith("govc:") or l.startswith("UNDECIDED") or "undecided" in l.lower()][:12]
     finally:
